@@ -18,8 +18,8 @@ from .codepoints import RegexError, iter_code_points
 from .unicode_subsets import UnicodeSubset, UnicodeData, install_unicode_data, \
     unicode_version, unicode_subset, lazy_subset, unicode_category, unicode_block
 from .character_classes import CharacterClass
-from .patterns import translate_pattern
+from .patterns import translate_pattern, escape_literal_pattern
 
-__all__ = ['translate_pattern', 'RegexError', 'UnicodeSubset', 'UnicodeData',
+__all__ = ['translate_pattern', 'escape_literal_pattern', 'RegexError', 'UnicodeSubset', 'UnicodeData',
            'install_unicode_data', 'unicode_version', 'unicode_subset', 'lazy_subset',
            'unicode_category', 'unicode_block', 'CharacterClass', 'iter_code_points']
